@@ -405,8 +405,78 @@ def frame_order_deser(chk, b, inst):
                     "the tag is read after the length prefix", "TE::decode before L::deserialize", b.sp())
 
 
+def presence_by_value(ctx, chk, prefix="C01-h"):
+    """(h) A decoded field must not double as its own "seen" marker.  Pattern (all three together): a local of
+    a decoder is initialised with a constant c, is assigned a decoded value, and is compared with the same c to
+    steer the decoder (duplicate / missing bookkeeping).  `V == c` then means both "not seen yet" and "seen with
+    value c", so the value c - which the encoder can emit - is refused or mis-ordered on the way back."""
+    from discharge import VEx
+    from mirlite import callee, op_place
+    from expr import walk
+    n = 0
+    for c in (ctx.crate("zvt_builder"), ctx.crate("zvt")):
+        for b in c.bodies.values():
+            r = b.raw
+            if (r.get("impl_trait") or r.get("in_trait")) != "zvt_builder::encoding::Encoding" or r.get("name") != "decode" or \
+                    r["defkind"] != "AssocFn":
+                continue
+            n += 1
+            vx = None
+            inits = {}          # local -> set of constants it is initialised / reset to
+            decoded = set()     # locals assigned from a decoder's result
+            for l, ds in b.defs.items():
+                if len(ds) < 2:
+                    continue
+                for d in ds:
+                    if d[2] != "assign" or d[3]["p"]["p"]:
+                        continue
+                    rv = d[3]["rv"]
+                    if rv["r"] == "use" and "k" in rv["o"] and isinstance(rv["o"]["k"].get("v"), int):
+                        inits.setdefault(l, set()).add(rv["o"]["k"]["v"])
+                    elif rv["r"] == "use" and op_place(rv["o"]) is not None:
+                        vx = vx or VEx(b)
+                        e = vx.rvalue(rv, d[0])
+                        if any(x[0] == "call" and x[1] in ("zvt_builder::ZvtSerializerImpl::deserialize_tagged",
+                                                            "zvt_builder::encoding::Encoding::decode") for x in walk(e)):
+                            decoded.add(l)
+                    elif rv["r"] == "call":
+                        pass
+                # `let v = T::default()` is a call
+                for d in ds:
+                    if d[2] == "call" and callee(d[3]) == "core::default::Default::default":
+                        inits.setdefault(l, set()).add(0)
+            cands = {l for l in decoded if l in inits}
+            bad = []
+            if cands:
+                vx = vx or VEx(b)
+                for i in sorted(b.reachable(0)):
+                    t_ = b.blocks[i]["term"]
+                    if t_["t"] != "switch":
+                        continue
+                    e = vx.operand(t_["d"], i)
+                    if e[0] == "bin" and e[1] in ("Eq", "Ne"):
+                        for a, k in ((e[2], e[3]), (e[3], e[2])):
+                            if k[0] == "call" and k[1] == "core::default::Default::default":
+                                k = ("const", 0)            # integer default
+                            if a[0] == "var" and a[2] in cands and k[0] == "const" and k[1] in inits[a[2]]:
+                                bad.append((a[1], k[1], t_.get("sp")))
+            inst = rules_short(b.id)
+            chk.require(not bad, prefix + "/presence-by-value", inst,
+                        "the decoded field `%s` is also used as its own 'seen' marker (initialised to %s, assigned from the wire, "
+                        "compared with %s): the legitimate value %s cannot be told from 'absent'"
+                        % (bad[0][0], bad[0][1], bad[0][1], bad[0][1]) if bad else "",
+                        "presence tracked separately from the value", bad[0][2] if bad else b.sp(), nontrivial=bool(cands))
+    chk.floor("decoders checked for presence-by-value", n, 75)
+
+
+def rules_short(bid):
+    s = bid.replace("zvt_builder::encoding::", "").replace("zvt_builder::", "")
+    return s if len(s) < 100 else "..." + s[-97:]
+
+
 def run(ctx, chk):
     _run_own(ctx, chk)
+    presence_by_value(ctx, chk)
     # (g) a value survives only if writer and reader of its length prefix agree on every form: include the
     # writer/reader agreement clauses of C16 as necessary conditions of the round trip
     import rules_c16
